@@ -121,6 +121,65 @@ def _limit_mem(mb):
         resource.setrlimit(resource.RLIMIT_AS, (mb << 20, mb << 20))
     return f
 
+def _run_worker_streaming(exe, lines, case_timeout, mem_mb=None):
+    """like _run_worker, but watches every case: a case that has been announced (BEGIN) and not answered within
+    [case_timeout] seconds is blamed, the worker is killed and restarted on the rest"""
+    import threading, select
+    results = {}
+    pending = list(lines)
+    while pending:
+        p = subprocess.Popen([exe], stdin=subprocess.PIPE, stdout=subprocess.PIPE, stderr=subprocess.DEVNULL,
+                             preexec_fn=_limit_mem(mem_mb) if mem_mb else None)
+        data = ("\n".join(pending) + "\n").encode()
+        def feed(proc=p, data=data):
+            try:
+                proc.stdin.write(data); proc.stdin.close()
+            except Exception:
+                pass
+        threading.Thread(target=feed, daemon=True).start()
+        begun, t_begun, buf, hung = None, time.time(), b"", False
+        fd = p.stdout.fileno()
+        while True:
+            r, _, _ = select.select([fd], [], [], 1.0)
+            if r:
+                chunk = os.read(fd, 1 << 16)
+                if not chunk:
+                    break
+                buf += chunk
+                while b"\n" in buf:
+                    ln, buf = buf.split(b"\n", 1)
+                    ln = ln.decode("utf8", "replace")
+                    if not ln:
+                        continue
+                    if ln.startswith("BEGIN\t"):
+                        begun, t_begun = ln[6:], time.time()
+                        continue
+                    i, _, res = ln.partition("\t")
+                    results[i] = res
+                    if begun == i:
+                        begun = None
+            elif begun is not None and time.time() - t_begun > case_timeout:
+                hung = True
+                break
+            elif p.poll() is not None and not r:
+                break
+        if hung:
+            p.kill()
+        rc = p.wait()
+        ids = [l.split("\t", 1)[0] for l in pending]
+        if not hung and rc == 0 and begun is None:
+            break
+        culprit = begun
+        if culprit is None:
+            rest = [i for i in ids if i not in results]
+            if not rest:
+                break
+            culprit = rest[0]
+        results[culprit] = "ABORT\t%s" % ("timeout" if hung else "rc=%s" % rc)
+        k = ids.index(culprit)
+        pending = pending[k + 1:]
+    return results
+
 def _run_worker(exe, lines, timeout, mem_mb=None):
     """Feed `lines` (each '<id>\\t...') to a worker; restart after an abort, attributing it to the
     case that had been announced with BEGIN.  Returns {id: result-string}."""
@@ -164,7 +223,7 @@ def _run_worker(exe, lines, timeout, mem_mb=None):
         pending = pending[k + 1:]
     return results
 
-def run_cases(exe, cases, timeout=600, shards=None, mem_mb=None):
+def run_cases(exe, cases, timeout=600, shards=None, mem_mb=None, case_timeout=None):
     """cases: list of payload strings '<mode>\\t<fields...>'.  Returns list of result strings."""
     n = len(cases)
     if n == 0:
@@ -174,7 +233,8 @@ def run_cases(exe, cases, timeout=600, shards=None, mem_mb=None):
     chunks = [lines[k::shards] for k in range(shards)]
     res = {}
     with ThreadPoolExecutor(max_workers=shards) as ex:
-        for r in ex.map(lambda ch: _run_worker(exe, ch, timeout, mem_mb), chunks):
+        work = (lambda ch: _run_worker_streaming(exe, ch, case_timeout, mem_mb)) if case_timeout else (lambda ch: _run_worker(exe, ch, timeout, mem_mb))
+        for r in ex.map(work, chunks):
             res.update(r)
     return [res.get(str(i), "MISSING") for i in range(n)]
 
